@@ -138,6 +138,9 @@ def extra(ctx):
     from checks import impdiff
     n = {"quick": 150, "thorough": 1500, "search": 60}.get(ctx["tier"], 150)
     diffs, cov = impdiff.run(ctx, random.Random(ctx["seed"] * 7717 + 11), n)
+    n2 = {"quick": 80, "thorough": 800, "search": 30}.get(ctx["tier"], 80)
+    diffs2, cov2 = impdiff.run_ts(ctx, random.Random(ctx["seed"] * 9173 + 3), n2)
+    diffs = list(diffs) + list(diffs2)
     corr = [{"case": None, "fails": ["translated program and compiled function differ: " + d], "diffs": []} for d in diffs[:5]]
-    cov = dict(cov); cov["evaluations"] = cov.get("imp_runs", 0)
+    cov = dict(cov); cov.update(cov2); cov["evaluations"] = cov.get("imp_runs", 0) + cov.get("imp_ts_runs", 0)
     return [], corr, cov
